@@ -11,8 +11,28 @@ Open Scope bool_scope.
 Definition linv (l : loop) : Prop :=
   length (running l) + (if popping l then 1 else 0) <= njob l.
 
-Lemma slot_guard_lt : forall a b, slot_guard a b = true -> a < b.
-Proof. intros a b H. unfold slot_guard in H. apply Nat.ltb_lt in H. exact H. Qed.
+(* A slot test is sound when it admits a start only if fewer than njob tasks are tracked, WHATEVER
+   the number of tasks parked in amend() is. *)
+Definition sound_test (g : slot_test) : Prop :=
+  forall r w n : Z, (0 <= r)%Z -> (0 <= w)%Z -> g r w n = true -> (r < n)%Z.
+
+Ltac guard_to_prop H :=
+  repeat (rewrite ?andb_true_iff, ?orb_true_iff, ?negb_true_iff, ?Z.ltb_lt, ?Z.leb_le, ?Z.gtb_lt,
+                  ?Z.geb_le, ?Z.eqb_eq, ?Z.eqb_neq, ?Z.ltb_ge, ?Z.leb_gt in H).
+
+(* These two lemmas are where a changed test of Builder.job_loop shows: a test that discounts the
+   parked tasks (nrunning - nwaiting < njob) is translated all the same, and then the proof fails
+   (and model.Limits.shortest_overrun finds the history, see lend_test_refuted). *)
+Lemma hash_slot_free_sound : sound_test hash_slot_free.
+Proof. intros r w n Hr Hw H. unfold hash_slot_free in H. guard_to_prop H. lia. Qed.
+
+Lemma job_slot_free_sound : sound_test job_slot_free.
+Proof. intros r w n Hr Hw H. unfold job_slot_free in H. guard_to_prop H. lia. Qed.
+
+Lemma guard_of_lt : forall g l, sound_test g -> guard_of g l = true -> length (running l) < njob l.
+Proof.
+  intros g l Hs H. unfold guard_of, zlen in H. apply Hs in H; lia.
+Qed.
 
 Lemma remove_first_length : forall t l, length (remove_first t l) <= length l.
 Proof.
@@ -20,54 +40,141 @@ Proof.
   destruct (task_eqb t x); simpl; lia.
 Qed.
 
-Lemma lstep_njob : forall l e, njob (lstep l e) = njob l.
+Lemma lstep_njob : forall hg jg l e, njob (lstep_gen hg jg l e) = njob l.
 Proof.
-  intros l e. destruct e as [h| |[j|]|t| | | |]; simpl; try reflexivity.
-  - destruct (negb (popping l) && slot_guard (length (running l)) (njob l)); reflexivity.
-  - destruct (negb (popping l) && slot_guard (length (running l)) (njob l)); reflexivity.
+  intros hg jg l e. destruct e as [h| |[j|]|t|j|j| | | |]; simpl; try reflexivity.
+  - destruct (negb (popping l) && guard_of hg l); reflexivity.
+  - destruct (negb (popping l) && guard_of jg l); reflexivity.
   - destruct (popping l && negb (draining l)); reflexivity.
+  - destruct (existsb (task_eqb (TJob j)) (running l)); reflexivity.
 Qed.
 
-Lemma lstep_inv : forall l e, linv l -> linv (lstep l e).
+Lemma lstep_inv : forall hg jg, sound_test hg -> sound_test jg ->
+  forall l e, linv l -> linv (lstep_gen hg jg l e).
 Proof.
-  intros l e H. unfold linv in *. destruct l as [n r p pr dr]. simpl in *.
-  destruct e as [h| |[j|]|t| | | |]; simpl; try exact H.
-  - destruct p; simpl; [exact H|]. destruct (slot_guard (length r) n) eqn:Eg; simpl;
-      [apply slot_guard_lt in Eg; lia|exact H].
-  - destruct p; simpl; [exact H|]. destruct (slot_guard (length r) n) eqn:Eg; simpl;
-      [apply slot_guard_lt in Eg; lia|exact H].
-  - destruct p; simpl; [destruct dr; simpl; lia|lia].
-  - destruct p; lia.
-  - pose proof (remove_first_length t r). destruct p; lia.
+  intros hg jg Hh Hj l e H. unfold linv in *.
+  destruct e as [h| |[j|]|t|j|j| | | |]; simpl; try exact H.
+  - destruct (popping l) eqn:Ep; simpl; [rewrite Ep; exact H|].
+    destruct (guard_of hg l) eqn:Eg; simpl; [apply (guard_of_lt hg l Hh) in Eg; lia|rewrite Ep; exact H].
+  - destruct (popping l) eqn:Ep; simpl; [rewrite Ep; exact H|].
+    destruct (guard_of jg l) eqn:Eg; simpl; [apply (guard_of_lt jg l Hj) in Eg; lia|rewrite Ep; exact H].
+  - destruct (popping l) eqn:Ep; simpl; [destruct (draining l); simpl; lia|lia].
+  - destruct (popping l); lia.
+  - pose proof (remove_first_length t (running l)). destruct (popping l); lia.
+  - destruct (existsb (task_eqb (TJob j)) (running l)); simpl; exact H.
 Qed.
 
-Lemma lrun_inv : forall evs l, linv l -> linv (lrun l evs) /\ njob (lrun l evs) = njob l.
+Lemma lrun_inv : forall hg jg, sound_test hg -> sound_test jg ->
+  forall evs l, linv l -> linv (lrun_gen hg jg l evs) /\ njob (lrun_gen hg jg l evs) = njob l.
 Proof.
-  induction evs as [|e r IH]; intros l H; simpl; [split; [exact H|reflexivity]|].
-  destruct (IH (lstep l e) (lstep_inv l e H)) as [A B]. split; [exact A|].
+  intros hg jg Hh Hj. induction evs as [|e r IH]; intros l H; simpl; [split; [exact H|reflexivity]|].
+  destruct (IH (lstep_gen hg jg l e) (lstep_inv hg jg Hh Hj l e H)) as [A B]. split; [exact A|].
+  change (lrun_gen hg jg l (e :: r)) with (lrun_gen hg jg (lstep_gen hg jg l e) r).
   rewrite B. apply lstep_njob.
 Qed.
 
 Lemma filter_length_le : forall {A} (f : A -> bool) l, length (filter f l) <= length l.
 Proof. intros A f l. induction l as [|x r IH]; simpl; [lia|]. destruct (f x); simpl; lia. Qed.
 
-Theorem running_le_njob_proof :
-  forall (n : nat) (evs : list lev),
-    let l := lrun (loop_init n) evs in
-    length (running l) <= n /\ command_tasks l <= n /\ njob l = n.
+Lemma linv_no_overrun : forall l, linv l -> overrun l = false.
 Proof.
-  intros n evs l.
+  intros l H. unfold overrun, command_tasks. apply negb_false_iff. apply Nat.leb_le.
+  unfold linv in H. pose proof (filter_length_le is_job (running l)). destruct (popping l); lia.
+Qed.
+
+(* Event alphabet: hash start, pop begin/end, task done, amend begin/end (a running step task
+   parks in / leaves run_promoted_hash_jobs), promoted hash start/done, drain, wake.
+   For ANY pair of sound tests. *)
+Theorem running_le_njob_of_sound :
+  forall hg jg, sound_test hg -> sound_test jg ->
+  forall (n : nat) (evs : list lev),
+    let l := lrun_gen hg jg (loop_init n) evs in
+    length (running l) <= n /\ command_tasks l <= n /\ njob l = n /\ overrun l = false.
+Proof.
+  intros hg jg Hh Hj n evs l.
   assert (H0 : linv (loop_init n)) by (unfold linv; simpl; lia).
-  destruct (lrun_inv evs (loop_init n) H0) as [A B]. fold l in A, B. simpl in B.
+  destruct (lrun_inv hg jg Hh Hj evs (loop_init n) H0) as [A B]. fold l in A, B. simpl in B.
+  pose proof (linv_no_overrun l A) as C.
   unfold linv in A. rewrite B in A.
   assert (length (running l) <= n) by (destruct (popping l); lia).
-  repeat split; [assumption| |assumption].
+  repeat split; [assumption| |assumption|assumption].
   unfold command_tasks. pose proof (filter_length_le is_job (running l)). lia.
 Qed.
 
-(* promoted hash jobs never occupy a slot and never become a command task *)
-Lemma promoted_separate : forall l, lstep l LPromotedStart = mkLoop (njob l) (running l) (popping l) (S (promoted l)) (draining l).
+Theorem running_le_njob_proof :
+  forall (n : nat) (evs : list lev),
+    let l := lrun (loop_init n) evs in
+    length (running l) <= n /\ command_tasks l <= n /\ njob l = n /\ overrun l = false.
+Proof. exact (running_le_njob_of_sound _ _ hash_slot_free_sound job_slot_free_sound). Qed.
+
+(* the commands parked in amend() are among the counted ones: the bound is on ALL step commands
+   that have started and not ended, parked or not *)
+Theorem parked_commands_counted :
+  forall (n : nat) (evs : list lev),
+    let l := lrun (loop_init n) evs in
+    forall j, existsb (task_eqb (TJob j)) (running l) = true -> 1 <= command_tasks l <= n.
+Proof.
+  intros n evs l j Hj.
+  destruct (running_le_njob_proof n evs) as [_ [H _]]. fold l in H. split; [|exact H].
+  unfold command_tasks. apply existsb_exists in Hj. destruct Hj as [t [Hin Ht]].
+  destruct t as [x|x]; simpl in Ht; [|discriminate].
+  assert (Hf : In (TJob x) (filter is_job (running l))) by (apply filter_In; split; [exact Hin|reflexivity]).
+  destruct (filter is_job (running l)); [contradiction|simpl; lia].
+Qed.
+
+(* the counterexample search of the model finds nothing, at any depth, from any state within the
+   invariant (so a hit of the search is exactly an unsound slot test) *)
+Lemma first_some_none : forall {A B} (f : A -> option B) l,
+  (forall x, In x l -> f x = None) -> first_some f l = None.
+Proof.
+  intros A B f l H. induction l as [|x r IH]; simpl; [reflexivity|].
+  rewrite (H x (or_introl eq_refl)). apply IH. intros y Hy. apply H. right. exact Hy.
+Qed.
+
+Lemma find_overrun_unfold : forall hg jg d l k acc,
+  find_overrun_gen hg jg (S d) l k acc =
+  if overrun l then Some (rev acc)
+  else first_some (fun e => find_overrun_gen hg jg d (lstep_gen hg jg l e) (S k) (e :: acc)) (next_events l k).
 Proof. reflexivity. Qed.
+
+Theorem find_overrun_none : forall hg jg, sound_test hg -> sound_test jg ->
+  forall d l k acc, linv l -> find_overrun_gen hg jg d l k acc = None.
+Proof.
+  intros hg jg Hh Hj. induction d as [|d IH]; intros l k acc H.
+  - unfold find_overrun_gen. rewrite (linv_no_overrun l H). reflexivity.
+  - rewrite find_overrun_unfold. rewrite (linv_no_overrun l H).
+    apply first_some_none. intros e _. apply IH. apply lstep_inv; assumption.
+Qed.
+
+Theorem shortest_overrun_none : forall n t d, shortest_overrun n d t = None.
+Proof.
+  intros n t. unfold shortest_overrun. induction t as [|t IH]; intros d; simpl; [reflexivity|].
+  rewrite (find_overrun_none _ _ hash_slot_free_sound job_slot_free_sound);
+    [apply IH|unfold linv; simpl; lia].
+Qed.
+
+(* promoted hash jobs never occupy a slot and never become a command task *)
+Lemma promoted_separate : forall l, lstep l LPromotedStart = mkLoop (njob l) (running l) (amending l) (popping l) (S (promoted l)) (draining l).
+Proof. reflexivity. Qed.
+
+(* The variant test that lends the slot of a step parked in amend() to the job loop
+   (len(running_tasks) - waiting_tasks < njob) is NOT sound, and the loop built from it exceeds the
+   job limit: with njob = 1, job 1 starts, parks in amend(), and job 4 is started next to it. The
+   witness is what the search returns. *)
+Theorem lend_test_unsound : ~ sound_test lend_slot_free.
+Proof.
+  intros H. specialize (H 1%Z 1%Z 1%Z). unfold lend_slot_free in H. simpl in H.
+  assert (1 < 1)%Z by (apply H; [lia|lia|reflexivity]). lia.
+Qed.
+
+Definition lend_witness : list lev := [LPopBegin; LPopEnd (Some 2); LAmendBegin 2; LPopBegin; LPopEnd (Some 5)].
+
+Theorem lend_test_refuted :
+  shortest_overrun_gen lend_slot_free lend_slot_free 1 0 8 = Some lend_witness /\
+  command_tasks (lrun_gen lend_slot_free lend_slot_free (loop_init 1) lend_witness) = 2 /\
+  (* it is enough that the test in front of pop_next_job lends the slot *)
+  overrun (lrun_gen hash_slot_free lend_slot_free (loop_init 1) lend_witness) = true.
+Proof. vm_compute. repeat split; reflexivity. Qed.
 
 (* ------------------------------------------------------------------------------------------ *)
 (* Facts about the generated fragments (each breaks when the source shape changes)             *)
